@@ -24,9 +24,10 @@ VARIABLES l,       \* next line of the trace
           issued,  \* ids returned by accepted AddVersions so far (all clients)
           pex,     \* previous exchange
           cfg,     \* configuration of the current run
+          pend,    \* crash traces: the request in flight (Intent seen, no Ack yet), op "none" otherwise
           nviol    \* number of events with a violated predicate
 
-vars == <<l, obs, kids, extra, g, issued, pex, cfg, nviol>>
+vars == <<l, obs, kids, extra, g, issued, pex, cfg, pend, nviol>>
 
 SetOf(s)   == {s[i] : i \in DOMAIN s}
 CsOf(j)    == [exists |-> j.e, latest |-> j.l, versions |-> SetOf(j.v), snap |-> j.s]
@@ -43,6 +44,7 @@ Init ==
   /\ l = 1
   /\ obs = <<>> /\ kids = <<>> /\ extra = <<>> /\ g = <<>>
   /\ issued = {} /\ pex = NullEx /\ cfg = [days |-> 0, versions |-> 0] /\ nviol = 0
+  /\ pend = NullEx.req
 
 ClientOps == {"NewClient", "AddVersion", "GetChildVersion", "AddSnapshot", "GetSnapshot", "Walk"}
 
@@ -80,7 +82,7 @@ Judge(e) ==
             ELSE g
   /\ issued' = IF req.op = "AddVersion" /\ resp.kind = "ok" THEN issued \cup {resp.vid} ELSE issued
   /\ pex' = [req |-> req, resp |-> resp]
-  /\ UNCHANGED cfg
+  /\ UNCHANGED <<cfg, pend>>
   /\ LET pre  == obs
          post == obs'
          g2   == g'
@@ -136,12 +138,86 @@ Reset(e) ==
   /\ pex' = NullEx
   /\ cfg' = e.cfg
   /\ (StOf(e) # [c \in DOMAIN e.st |-> Absent] => PrintT(<<"VIOL", l, e.run, e.i, {"M_reset"}>>))
+  /\ pend' = NullEx.req
   /\ UNCHANGED nviol
+
+(***************************************************************************)
+(* Crash traces (C04).  The history process writes an Intent before and an *)
+(* Ack after every request and makes no state dumps; it is killed, or the  *)
+(* machine "loses power", at some file-system call.  The image is opened   *)
+(* by the real code in a fresh process: Recovered carries the integrity    *)
+(* check and the projected state.  The ghost knows what was acknowledged.  *)
+(***************************************************************************)
+Intent(e) ==
+  /\ pend' = e.req
+  /\ UNCHANGED <<obs, kids, extra, g, issued, pex, cfg, nviol>>
+
+Ack(e) ==
+  LET c == e.req.c
+      \* no dump in the history process: the state is the one the ghost implies
+      guess == [GState(g[c]) EXCEPT !.exists = @ \/ (e.req.op = "AddVersion" /\ e.req.lvl = "http")]
+      g2 == [g EXCEPT ![c] = GNext(g[c], e.req, e.resp, guess, e.day)]
+  IN /\ g' = g2
+     /\ obs' = [d \in DOMAIN g2 |-> GState(g2[d])]
+     /\ kids' = [d \in DOMAIN g2 |-> GState(g2[d]).versions]
+     /\ issued' = IF e.req.op = "AddVersion" /\ e.resp.kind = "ok" THEN issued \cup {e.resp.vid} ELSE issued
+     /\ pex' = [req |-> e.req, resp |-> e.resp]
+     /\ pend' = NullEx.req
+     /\ ((e.resp.kind \in {"error", "panic", "timeout"}) => PrintT(<<"VIOL", l, e.run, e.i, {"C04"}>>))
+     /\ UNCHANGED <<extra, cfg, nviol>>
+
+(* the states the client of the in-flight request may be found in: untouched, completely applied,
+   or - for the three-transaction HTTP AddVersion of an unknown client - the empty client record *)
+PendingApplied(gc, q, postc) ==
+  LET base == [GState(gc) EXCEPT !.exists = TRUE] IN
+  CASE q.op = "AddVersion" /\ (gc.exists \/ q.lvl = "http") /\ AVAccepts(GState(gc), q.arg) ->
+         {StAddVersion(base, postc.latest, q.arg, q.tok)}
+    [] q.op = "AddSnapshot" /\ gc.exists /\ SnapAccepts(gc, q.arg) ->
+         {StSetSnapshot(GState(gc), q.arg, q.tok, 0)}
+    [] OTHER -> {}
+
+Recovered(e) ==
+  LET post == StOf(e)
+      cl   == DOMAIN e.st
+      pc_  == pend.c
+      inflight == pend.op \in {"AddVersion", "AddSnapshot"} /\ pc_ \in cl
+      applied == IF inflight THEN PendingApplied(g[pc_], pend, post[pc_]) ELSE {}
+      isApplied == inflight /\ post[pc_] \in applied /\ post[pc_] # GState(g[pc_])
+      fresh == post[pc_].latest \notin issued /\ post[pc_].latest # Nil
+      okc(d) == \/ post[d] = GState(g[d])
+                \/ (inflight /\ d = pc_ /\ post[d] \in applied /\ (pend.op = "AddVersion" => fresh))
+                \/ (inflight /\ d = pc_ /\ pend.op = "AddVersion" /\ pend.lvl = "http" /\ ~g[d].exists
+                     /\ post[d] = StNewClient)
+      g2 == IF isApplied
+              THEN [g EXCEPT ![pc_] = GNext(g[pc_], pend,
+                                            IF pend.op = "AddVersion" THEN Resp("ok", post[pc_].latest, 0, 0, "none") ELSE R0("snapok"),
+                                            post[pc_], 0)]
+              ELSE [d \in cl |-> [g[d] EXCEPT !.exists = post[d].exists]]
+      good == /\ e.integrity = "ok"
+              /\ \A d \in cl : okc(d)
+              /\ \A d \in cl : KidsOf(e)[d] = post[d].versions /\ ExtraOf(e)[d] = 0
+              /\ \A d \in cl : C01_State(g2[d], post[d]) /\ C11_State(g2[d], post[d])
+  IN /\ (~good => PrintT(<<"VIOL", l, e.run, e.i, {"C04"}>>))
+     /\ nviol' = nviol + (IF good THEN 0 ELSE 1)
+     /\ obs' = post /\ kids' = KidsOf(e) /\ extra' = ExtraOf(e)
+     /\ g' = g2
+     /\ issued' = IF isApplied /\ pend.op = "AddVersion" THEN issued \cup {post[pc_].latest} ELSE issued
+     /\ pend' = NullEx.req
+     /\ pex' = NullEx
+     /\ UNCHANGED cfg
 
 Next ==
   /\ l <= N
   /\ l' = l + 1
-  /\ LET e == Recs[l] IN IF e.ev = "Reset" THEN Reset(e) ELSE Judge(e)
+  /\ LET e == Recs[l] IN
+       CASE e.ev = "Reset"     -> Reset(e)
+         [] e.ev = "Intent"    -> Intent(e)
+         [] e.ev = "Ack"       -> Ack(e)
+         [] e.ev = "Crash"     -> UNCHANGED <<obs, kids, extra, g, issued, pex, cfg, pend, nviol>>
+         [] e.ev = "Recovered" -> IF e.st = <<>> THEN /\ PrintT(<<"VIOL", l, e.run, e.i, {"C04"}>>)
+                                                     /\ UNCHANGED <<obs, kids, extra, g, issued, pex, cfg, pend, nviol>>
+                                  ELSE Recovered(e)
+         [] OTHER              -> Judge(e)
 
 Spec == Init /\ [][Next]_vars
 
